@@ -12,6 +12,7 @@ import (
 
 	"manticheck/internal/codec"
 	"manticheck/internal/prove"
+	"manticheck/internal/report"
 )
 
 // C14 — key-credential blobs (DESIGN.md §4 C14; §3 E2 layouts, §3 E3
@@ -43,6 +44,56 @@ type c14 struct {
 	entryT  *types.Named
 	family  map[int64]string // value → constant name
 	hashVal int64
+
+	readSem    *c14ReadSem  // lane interpretation of FromBytes (memoised)
+	writeSem   *c14WriteSem // lane interpretation of ToBytes (memoised)
+	keyHashSem *c14V        // lane interpretation of ComputeKeyHash (memoised)
+}
+
+func (x *c14) fromBytesSem(fromB *ssa.Function) *c14ReadSem {
+	if x.readSem == nil {
+		x.readSem = &c14ReadSem{why: "internal error in the lane interpretation"}
+		func() {
+			defer func() {
+				if r := recover(); r != nil {
+					x.readSem = &c14ReadSem{why: fmt.Sprintf("internal error in the lane interpretation: %v", r)}
+				}
+			}()
+			x.readSem = x.semFromBytes(fromB)
+		}()
+	}
+	return x.readSem
+}
+
+func (x *c14) toBytesSem(toB *ssa.Function) *c14WriteSem {
+	if x.writeSem == nil {
+		x.writeSem = &c14WriteSem{why: "internal error in the lane interpretation"}
+		func() {
+			defer func() {
+				if r := recover(); r != nil {
+					x.writeSem = &c14WriteSem{why: fmt.Sprintf("internal error in the lane interpretation: %v", r)}
+				}
+			}()
+			x.writeSem = x.semToBytes(toB)
+		}()
+	}
+	return x.writeSem
+}
+
+func (x *c14) computeKeyHashSem(cKH *ssa.Function) c14V {
+	if x.keyHashSem == nil {
+		v := c14Na("internal error in the lane interpretation")
+		func() {
+			defer func() {
+				if r := recover(); r != nil {
+					v = c14Na("internal error in the lane interpretation: %v", r)
+				}
+			}()
+			v = x.semKeyHash(cKH)
+		}()
+		x.keyHashSem = &v
+	}
+	return *x.keyHashSem
 }
 
 func runC14(c *Ctx) {
@@ -54,12 +105,14 @@ func runC14(c *Ctx) {
 		"R4-rsa-blob (internal/codec; BCRYPT_RSAKEY_BLOB): RSAKeyMaterial.ToBytes emits \"RSA1\" | KeySize | cbPublicExp | cbModulus | cbPrime1 | cbPrime2, each 4 bytes little-endian, then the exponent big-endian, Modulus, Prime1, Prime2, each length slot holding the length of the very field emitted in that position; FromBytes compares bytes 0..3 with \"RSA1\", reads KeySize from 4..7 LE, takes the exponent byte count from 8..11, the Modulus/Prime1/Prime2 widths from 12..15/16..19/20..23 (LE) and their offsets as 24 + the preceding widths, and accumulates the exponent big-endian over exactly cbPublicExp bytes from offset 24. " +
 		"R5-integrity: every `return true` of CheckIntegrity is dominated by the equal-length edge of a comparison of len(ComputeKeyHash()) with len(KeyHash) and by the exit edge of a loop that runs the index over 0..len(hash)-1 and leaves with `false` on the first hash[i] != KeyHash[i] (or the result is bytes.Equal / subtle.ConstantTimeCompare of the two). " +
 		"R6-dn-with-binary: DNWithBinary.ToString's format has the free-form DistinguishedName as its LAST verb; Parse splits on the same separator constant, demands as many parts as the format has fields, assigns parts[i] to the field verb i prints, uses the same ×2 factor between BinaryData and the printed size, and — because the last field may contain the separator — splits with SplitN(…, number of fields). " +
+		"LANE INTERPRETATION (internal/absint; robustness to behaviour-preserving refactors): the recognisers above read today's code shapes; every clause they decide is ALSO decided from the functions' behaviour, by interpreting go/ssa over the bit-lane domain on inputs of concrete shape and symbolic content (helpers are entered, switch/if, early returns, predicates, bytes.Clone/copy/append, PutUintN/AppendUintN, bytes.Buffer, strings/bytes Cut/Split/Index, read-only package-level tables, function values and closures just execute; data-dependent branches that do not guard an error exit are enumerated path by path). FromBytes: on version | unknown(258) | K(L) | unknown(1) for every entry-type constant K and L ∈ {1,8,16,40}, which KeyCredential fields are assigned because of the K entry and which blob bytes they and the (summarised) value decoders see — exactly the L bytes at entry offset 3. ToBytes: with the value encoders summarised as fresh symbolic bytes the blob must read back as Version.Value (4 bytes LE) and length(2,LE)|type(1)|value records that consume it exactly; each record's bytes are traced to the fields they come from. ComputeKeyHash: on four entry sequences exactly the bytes after the KeyHash entry reach utils.ComputeHash once and its digest is returned. CheckIntegrity: against a fixed 32-byte digest, equal → true, each of the 256 single-bit alterations, a 31-, 33- and 0-byte KeyHash → false. CustomKeyInformation: FromBytes on symbolic blobs of 0..40 bytes and ToBytes with RawBytesSize 0..40 give, per field, offset, width and size threshold on both sides (these tables are what R3 judges). RSAKeyMaterial.ToBytes: on five key shapes (one or both primes nil or empty, lengths above 255) every slot holds the BCRYPT_RSAKEY_BLOB value. DNWithBinary: for names with the separator inside, surrounding white space, mixed case, a nested prefix, empty: ToString prints exactly B:<2n>:<hex>:<name> and Parse returns the same name and bytes. Combination: recogniser OK + interpretation wrong ⇒ violation (a concrete counter-shape exists); recogniser not OK + interpretation OK ⇒ held (the reason names both); interpretation aborted (construct not modelled) ⇒ the recogniser's verdict stands — an abort is never a pass and never by itself a violation. " +
 		"NOT decided: that altering any covered bit is detected (needs SHA-256 semantics; R1/R5 only establish which bytes are hashed and that every hash byte is compared); re-serialisation equality of whole credentials (ordering of entries, the zero KeyHash placeholder, LegacyUsage/Usage sharing one entry type); timestamps (C15); bounds safety of FromBytes (C07); X509/PEM export."
 	r.Assumptions = []string{
 		"go/parser, go/types and the go/ssa builder of x/tools v0.50.0 are faithful to the source",
 		"contracts: (*bytes.Buffer).Write appends its argument; encoding/binary.Write(w, order, v) writes the fixed-size integer v in that order; encoding/binary.{Little,Big}Endian.UintN/PutUintN/AppendUintN; bytes.Split/SplitN, strings.Split/SplitN; bytes.Equal(a,b) and subtle.ConstantTimeCompare(a,b)==1 hold iff len(a)==len(b) and all bytes are equal; fmt.Sprintf prints its arguments in verb order",
 		"SPEC tables: MS-ADTS KEYCREDENTIALLINK_ENTRY = Length(2, LE) | Identifier(1) | Value(Length); BCRYPT_RSAKEY_BLOB = Magic \"RSA1\", BitLength, cbPublicExp, cbModulus, cbPrime1, cbPrime2 (6×4 bytes LE) followed by PublicExponent (big-endian), Modulus, Prime1, Prime2; MS-ADTS CUSTOM_KEY_INFORMATION = Version(1) Flags(1) [VolumeType(1) SupportsNotification(1) FekKeyVersion(1) KeyStrength(4) Reserved(10) EncodedExtendedCKI(*)]",
 		"the E1 prover of internal/prove (dominating branch conditions, available loads, Fourier–Motzkin) is sound; type-based aliasing",
+		"lane interpretation: the library contracts modelled by internal/absint (encoding/binary Uint/PutUint/AppendUint/Write, bytes.Buffer Write/WriteByte/Bytes/Len, bytes/strings Cut, CutPrefix, Split(N), Index, HasPrefix, Trim*, Clone, Equal, hmac.Equal, subtle.ConstantTimeCompare, strconv.Atoi/Itoa/ParseUint, hex Encode/Decode, fmt.Sprintf %d %s %x, copy/append/len/min/max); value codecs outside windows/keycredential (identifier, RSA blob, GUID, custom key information, timestamps, SHA-256) are summarised when FromBytes/ToBytes/ComputeKeyHash are interpreted: they may write through pointer arguments, return unknown (decoders) or fresh symbolic (encoders) values, and do not modify the byte slices they are handed; a package-level variable assigned once by its package initialiser and only ever read is its initialiser; the analysed shapes are those listed in the explanation",
 	}
 	x := &c14{Ctx: c, family: map[int64]string{}}
 
@@ -408,9 +461,16 @@ func c14AssignedFields(fn *ssa.Function, body *ssa.BasicBlock, recv ssa.Value) m
 func (x *c14) entryTables() {
 	p, r := x.P, x.R
 	toB, fromB, cKH := x.fn(c14Pkg, "KeyCredential", "ToBytes"), x.fn(c14Pkg, "KeyCredential", "FromBytes"), x.fn(c14Pkg, "KeyCredential", "ComputeKeyHash")
+	// writeEntry is an unexported helper: the recogniser reads its call sites,
+	// the lane interpretation of ToBytes does not need it
 	wE := x.fn(c14Pkg, "", "writeEntry")
-	if toB == nil || fromB == nil || cKH == nil || wE == nil {
-		r.Undecided("anchor", c14Pkg+".(*KeyCredential).ToBytes/FromBytes/ComputeKeyHash, writeEntry", "", "anchor function does not resolve")
+	if toB == nil || fromB == nil || cKH == nil {
+		r.Undecided("anchor", c14Pkg+".(*KeyCredential).ToBytes/FromBytes/ComputeKeyHash", "", "anchor function does not resolve")
+		return
+	}
+	wsem := x.toBytesSem(toB)
+	if wE == nil && !wsem.done {
+		r.Undecided("anchor", c14Pkg+".writeEntry", "", "the entry writer does not resolve and the lane interpretation of ToBytes is not available ("+wsem.why+")")
 		return
 	}
 	skip := map[string]bool{"Version": true, "RawBytes": true, "RawBytesSize": true}
@@ -421,14 +481,16 @@ func (x *c14) entryTables() {
 	for _, b := range toB.Blocks {
 		for _, instr := range b.Instrs {
 			call, ok := instr.(*ssa.Call)
-			if !ok || call.Common().StaticCallee() != wE || len(call.Common().Args) != 3 {
+			if !ok || wE == nil || call.Common().StaticCallee() != wE || len(call.Common().Args) != 3 {
 				continue
 			}
 			nCalls++
 			k, ok := x.entryConst(call.Common().Args[1])
 			if !ok {
 				unresolved++
-				r.Undecided(c14R1, c14Pkg+".(*KeyCredential).ToBytes: entry type of a writeEntry call is a constant", p.Rel(call.Pos()), "the type argument is not a KeyCredentialEntryType literal with a constant Value")
+				if !wsem.done {
+					r.Undecided(c14R1, c14Pkg+".(*KeyCredential).ToBytes: entry type of a writeEntry call is a constant", p.Rel(call.Pos()), "the type argument is not a KeyCredentialEntryType literal with a constant Value")
+				}
 				continue
 			}
 			wcount[k]++
@@ -467,6 +529,62 @@ func (x *c14) entryTables() {
 				read[cs.k] = append(read[cs.k], f)
 			}
 		}
+	}
+	// The reader table above comes from the shape recogniser (comparisons of
+	// entryType.Value with a constant and the stores their branches dominate).
+	// The lane interpretation tabulates the same fact from FromBytes's
+	// behaviour — which KeyCredential fields are assigned because a K entry is
+	// present — and is what is judged wherever it completes.
+	r.Extra["entries_read_by_FromBytes_recogniser"] = c14Table(x.family, read)
+	r.Extra["entries_read_from"] = "shape recogniser (entry-type comparisons and the stores they dominate)"
+	if sem := x.fromBytesSem(fromB); sem.done {
+		n := 0
+		for k := range x.family {
+			if !sem.decided[k] {
+				continue
+			}
+			n++
+			var fs []string
+			for _, f := range sem.handled[k] {
+				if !skip[f] {
+					fs = append(fs, f)
+				}
+			}
+			delete(read, k)
+			delete(rcount, k)
+			if len(fs) > 0 {
+				read[k], rcount[k] = fs, 1
+			}
+		}
+		// an entry type outside the family that the recogniser saw a branch for stays as it is
+		r.Extra["entries_read_from"] = fmt.Sprintf("lane interpretation of FromBytes on version | unknown(258) | K(L) | unknown(1), L ∈ {1,8,16,40}, for %d of %d entry-type constants", n, len(x.family))
+		r.Extra["fields_assigned_whatever_the_entries"] = sem.always
+	} else {
+		r.Note("C14 R1: lane interpretation of FromBytes not available (%s); the shape recogniser's reader table is judged", sem.why)
+	}
+	// writer table: likewise from the blob ToBytes produces (records read by
+	// the MS-ADTS layout, value bytes traced back to the fields)
+	r.Extra["entries_written_by_ToBytes_recogniser"] = c14Table(x.family, written)
+	r.Extra["entries_written_from"] = "shape recogniser (writeEntry calls with a constant type argument, backward slice of the data argument)"
+	if wsem.done && wsem.structure.st == c14Bad && wE != nil {
+		// the blob does not read back as records (reported under R2): the
+		// records found in it say nothing about which entries are written
+		r.Note("C14 R1: the blob ToBytes produces does not parse as records (%s); the shape recogniser's writer table is judged", wsem.structure.msg)
+	} else if wsem.done {
+		written, wcount = map[int64][]string{}, map[int64]int{}
+		for k, fs := range wsem.written {
+			var keep []string
+			for _, f := range fs {
+				if !skip[f] {
+					keep = append(keep, f)
+				}
+			}
+			written[k], wcount[k] = keep, wsem.wcount[k]
+		}
+		unresolved = 1 // the "no writeEntry call" report below belongs to the recogniser
+		r.Extra["entries_written_from"] = "lane interpretation of ToBytes (value encoders summarised as fresh symbolic bytes; the blob read as version | length(2,LE) type(1) value records)"
+	} else {
+		r.Note("C14 R1: lane interpretation of ToBytes not available (%s); the shape recogniser's writer table is judged", wsem.why)
 	}
 	r.Extra["entries_written_by_ToBytes"] = c14Table(x.family, written)
 	r.Extra["entries_read_by_FromBytes"] = c14Table(x.family, read)
@@ -522,7 +640,11 @@ func (x *c14) entryTables() {
 		r.Undecided(c14R1, c14Pkg+".(*KeyCredential).ToBytes: entries are written through writeEntry", p.Rel(toB.Pos()), "no writeEntry call found")
 	}
 
+	mark := len(r.Obls)
 	x.keyHashWalk(cKH)
+	x.arbitrate(mark, func(o *report.Obligation) bool {
+		return o.Rule == c14R1 && strings.Contains(o.Construct, ".ComputeKeyHash: ")
+	}, x.computeKeyHashSem(cKH))
 }
 
 func c14Table(fam map[int64]string, m map[int64][]string) map[string][]string {
@@ -843,16 +965,32 @@ func (x *c14) entryHeader() {
 	toB, fromB, cKH := x.fn(c14Pkg, "KeyCredential", "ToBytes"), x.fn(c14Pkg, "KeyCredential", "FromBytes"), x.fn(c14Pkg, "KeyCredential", "ComputeKeyHash")
 	etTo, etFrom := x.fn(c14PkgKey, "KeyCredentialEntryType", "ToBytes"), x.fn(c14PkgKey, "KeyCredentialEntryType", "FromBytes")
 	vTo, vFrom := x.fn(c14PkgKey, "KeyCredentialVersion", "ToBytes"), x.fn(c14PkgKey, "KeyCredentialVersion", "FromBytes")
-	if wE == nil || toB == nil || fromB == nil || cKH == nil || etTo == nil || etFrom == nil || vTo == nil || vFrom == nil {
-		r.Undecided("anchor", c14Pkg+".writeEntry, KeyCredentialEntryType/KeyCredentialVersion codecs", "", "anchor function does not resolve")
+	if toB == nil || fromB == nil || cKH == nil || etTo == nil || etFrom == nil || vTo == nil || vFrom == nil {
+		r.Undecided("anchor", c14Pkg+".(*KeyCredential).ToBytes/FromBytes/ComputeKeyHash, KeyCredentialEntryType/KeyCredentialVersion codecs", "", "anchor function does not resolve")
 		return
 	}
 	// ---- writer: writeEntry ----
+	// The recogniser reads the helper named writeEntry with internal/codec; the
+	// lane interpretation of ToBytes decides the same clause from the blob (it
+	// must read back as records whose 2-byte little-endian length agrees with
+	// the value that follows), whatever the helper is called and however it
+	// builds the header.
+	wsem := x.toBytesSem(toB)
+	semW := wsem.structure
+	if !wsem.done {
+		semW = c14Na("%s", wsem.why)
+	}
 	nameW := c14Pkg + ".writeEntry"
-	posW := p.Rel(wE.Pos())
 	cW := nameW + ": emits uint16 LE len(data) | type byte | data"
+	markW := len(r.Obls)
+	posW := p.Rel(toB.Pos())
 	var bufP, typP, dataP *ssa.Parameter
-	for _, q := range wE.Params {
+	var wParams []*ssa.Parameter
+	if wE != nil {
+		posW = p.Rel(wE.Pos())
+		wParams = wE.Params
+	}
+	for _, q := range wParams {
 		switch {
 		case strings.HasSuffix(q.Type().String(), "bytes.Buffer"):
 			bufP = q
@@ -865,7 +1003,7 @@ func (x *c14) entryHeader() {
 		}
 	}
 	if bufP == nil || typP == nil || dataP == nil {
-		r.Undecided(c14R2, cW, posW, "writeEntry no longer has (buffer *bytes.Buffer, entryType KeyCredentialEntryType, data []byte) parameters")
+		r.Undecided(c14R2, cW, posW, "there is no writeEntry(buffer *bytes.Buffer, entryType KeyCredentialEntryType, data []byte)")
 	} else {
 		e := codec.NewExt(x.w, wE)
 		// the by-value struct parameter is spilled into a local
@@ -906,6 +1044,7 @@ func (x *c14) entryHeader() {
 			}
 		}
 	}
+	x.arbitrate(markW, func(o *report.Obligation) bool { return o.Rule == c14R2 && o.Construct == cW }, semW)
 	// type byte codec
 	cTE := c14PkgKey + ".(*KeyCredentialEntryType).ToBytes: one byte == Value"
 	enc := encStreams(x.w, etTo)["out"]
@@ -962,6 +1101,7 @@ func (x *c14) entryHeader() {
 	}
 	// ---- ToBytes: version then records only ----
 	cTB := c14Pkg + ".(*KeyCredential).ToBytes: the blob is Version.ToBytes() followed by writeEntry records only"
+	markTB := len(r.Obls)
 	{
 		var buf ssa.Value
 		for _, b := range toB.Blocks {
@@ -985,7 +1125,7 @@ func (x *c14) entryHeader() {
 					continue
 				}
 				switch {
-				case call.Common().StaticCallee() == wE:
+				case wE != nil && call.Common().StaticCallee() == wE:
 					nRec++
 				case prove.StaticName(call.Common()) == "(*bytes.Buffer).Write":
 					if first != nil {
@@ -1011,7 +1151,7 @@ func (x *c14) entryHeader() {
 			dominatesAll := first != nil
 			if first != nil {
 				for _, rr := range *buf.Referrers() {
-					if call, ok := rr.(*ssa.Call); ok && call != first && call.Common().StaticCallee() == wE {
+					if call, ok := rr.(*ssa.Call); ok && call != first && wE != nil && call.Common().StaticCallee() == wE {
 						if !(first.Block() == call.Block() || first.Block().Dominates(call.Block())) {
 							dominatesAll = false
 						}
@@ -1028,6 +1168,7 @@ func (x *c14) entryHeader() {
 			}
 		}
 	}
+	x.arbitrate(markTB, func(o *report.Obligation) bool { return o.Rule == c14R2 && o.Construct == cTB }, semW)
 	// ---- readers ----
 	for _, rd := range []struct {
 		fn       *ssa.Function
@@ -1038,6 +1179,20 @@ func (x *c14) entryHeader() {
 		cL := name + ": entry length == little-endian uint16 at entry offset 0"
 		cT := name + ": entry type == byte at entry offset 2"
 		cD := name + ": entry value == length bytes at entry offset 3, next entry at 3+length"
+		mark := len(r.Obls)
+		sem := x.computeKeyHashSem(cKH)
+		if rd.fn == fromB {
+			rs := x.fromBytesSem(fromB)
+			sem = rs.lanes
+			if !rs.done {
+				sem = c14Na("%s", rs.why)
+			}
+		}
+		settleLanes := func() {
+			x.arbitrate(mark, func(o *report.Obligation) bool {
+				return o.Rule == c14R2 && (o.Construct == cL || o.Construct == cT || o.Construct == cD)
+			}, sem)
+		}
 		wk := x.entryWalk(rd.fn)
 		if wk == nil || wk.why != "" {
 			why := "the entry loop is not recognised"
@@ -1047,6 +1202,7 @@ func (x *c14) entryHeader() {
 			r.Undecided(c14R2, cL, pos, why)
 			r.Undecided(c14R2, cT, pos, why)
 			r.Undecided(c14R2, cD, pos, why)
+			settleLanes()
 			continue
 		}
 		if wk.lenOff == 0 && wk.lenW == 2 && wk.lenOrder == "LE" {
@@ -1067,6 +1223,7 @@ func (x *c14) entryHeader() {
 		default:
 			r.OK(c14R2, cD, pos, "value = remainder[3:][:length] (where used), next = remainder[3:][length:]")
 		}
+		settleLanes()
 	}
 	// cross-check FromBytes with the codec engine's own reading
 	cX := c14Pkg + ".(*KeyCredential).FromBytes: codec layout of the KeyHash entry agrees (offset 3, width = LE16 length)"
@@ -1082,12 +1239,22 @@ func (x *c14) entryHeader() {
 		}
 	}
 	walkAtoms(all)
+	// This is a cross-check by a second engine. When the extractor cannot place
+	// the bytes (the value reaches the field through a helper's results, a φ it
+	// cannot resolve: "via …", "?" in the offset) it has no opinion; the lane
+	// interpretation of FromBytes then stands in as the second engine.
+	semX := x.fromBytesSem(fromB).lanes
+	if !x.fromBytesSem(fromB).done {
+		semX = c14Na("%s", x.fromBytesSem(fromB).why)
+	}
 	switch {
 	case kh == nil:
-		r.Undecided(c14R2, cX, p.Rel(fromB.Pos()), "internal/codec does not report a bytes atom for KeyHash")
+		x.settle(c14R2, cX, p.Rel(fromB.Pos()), report.Undecided, "internal/codec does not report a bytes atom for KeyHash", semX)
 	case kh.Off == "3" && strings.Contains(kh.WidthStr, "Uint16") && strings.Contains(kh.WidthStr, "LittleEndian"):
 		r.OK(c14R2, cX, p.Rel(fromB.Pos()), kh.String())
+	case strings.Contains(kh.String(), "[via ") || strings.Contains(kh.Off, "?") || strings.Contains(kh.Off, "φ"):
+		x.settle(c14R2, cX, p.Rel(fromB.Pos()), report.Undecided, "internal/codec cannot place the KeyHash value: "+kh.String(), semX)
 	default:
-		r.Fail(c14R2, cX, p.Rel(fromB.Pos()), "codec reads the KeyHash value as "+kh.String()+", required offset 3 with the little-endian uint16 length as width")
+		x.settle(c14R2, cX, p.Rel(fromB.Pos()), report.Finding, "codec reads the KeyHash value as "+kh.String()+", required offset 3 with the little-endian uint16 length as width", semX)
 	}
 }
